@@ -85,7 +85,9 @@ func drawPool(t *rapid.T) PoolCase {
 
 const poisonTag = "PZN"
 
-func poisonStr(seed int, field string) string { return fmt.Sprintf("%s%03d<%s>", poisonTag, seed, field) }
+func poisonStr(seed int, field string) string {
+	return fmt.Sprintf("%s%03d<%s>", poisonTag, seed, field)
+}
 
 // numeric poison: a reserved bit pattern in the top half of the value; no
 // default (0, -1, the default version 50100, any requested version) matches it.
@@ -355,7 +357,7 @@ func b2i(b bool) int {
 
 var poolSpec = pbt.Register(pbt.Spec[PoolCase]{
 	Prop: "C07", Name: "pool",
-	Rule: "histories of 3..40 acquire(type, version) / fill(poison in every exported field incl. maps, slices, pointers) / release over 1..3 of the 18 pooled types, run on a single P; after every acquire no field may contain poison (bool fields: value after re-acquisition must not follow the value stored before release); non-trivial = sync.Pool really handed back an object that had been poisoned and released earlier in the same history; distinct by history",
+	Rule:  "histories of 3..40 acquire(type, version) / fill(poison in every exported field incl. maps, slices, pointers) / release over 1..3 of the 18 pooled types, run on a single P; after every acquire no field may contain poison (bool fields: value after re-acquisition must not follow the value stored before release); non-trivial = sync.Pool really handed back an object that had been poisoned and released earlier in the same history; distinct by history",
 	Quick: 3000, Thorough: 20000,
 	Draw: drawPool, Run: runPool,
 })
